@@ -636,6 +636,13 @@ __CPROVER_requires(__CPROVER_r_ok(key, 32))
 __CPROVER_requires(0 < l_input_len && l_input_len <= VERIF_MAX_OBJ && __CPROVER_r_ok(l_input, l_input_len))
 __CPROVER_requires(0 < r_input_len && r_input_len <= VERIF_MAX_OBJ && __CPROVER_r_ok(r_input, r_input_len))
 __CPROVER_requires(__CPROVER_w_ok(l_cvs, 32 * MAX_SIMD_DEGREE_OR_2) && __CPROVER_w_ok(r_cvs, 32 * MAX_SIMD_DEGREE_OR_2))
+/* layout: the right window starts exactly `degree` CV slots after the left one, as in the sequential branch
+ * (right_cvs = &cv_array[degree * 32], degree = the SIMD degree, raised to 2 when it is 1 and the left half is
+ * more than one chunk): the code after the join reads the CVs as ONE contiguous array starting at l_cvs
+ * (memcpy(out, cv_array, 64) when left_n == 1, compress_parents_parallel(cv_array, left_n + right_n) otherwise) */
+__CPROVER_requires(r_cvs == l_cvs + BLAKE3_OUT_LEN *
+                   ((VERIF_SIMD_DEGREE(g_cpu_features) == 1 && l_input_len > BLAKE3_CHUNK_LEN)
+                        ? 2 : VERIF_SIMD_DEGREE(g_cpu_features)))
 __CPROVER_requires(__CPROVER_w_ok(l_n, sizeof(size_t)) && __CPROVER_w_ok(r_n, sizeof(size_t)))
 __CPROVER_requires(VERIF_GCPU_OK)
 __CPROVER_assigns(__CPROVER_object_upto(l_cvs, 512), __CPROVER_object_upto(r_cvs, 512), *l_n, *r_n,
